@@ -207,6 +207,38 @@ func c13Audit(s *drv.Server, bucket string, m *model.VersionModel, keys []string
 						r.Count("marker_pair_probes", 1)
 					}
 				}
+				// the same marker pairs together with a prefix that the marker's key does not match:
+				// what follows are the entries of the prefixed listing whose keys sort after the marker key
+				for _, p2 := range []string{"dir/", "w", "e", "zz"} {
+					full, fresp := listVersions(s, bucket, p2, "")
+					if full == nil {
+						return fail("listing-error", "", fmt.Sprintf("ListObjectVersions prefix=%q: %s", p2, fresp))
+					}
+					for _, e := range vr.Entries {
+						if e.VersionID == "null" || strings.HasPrefix(e.Key, p2) {
+							continue
+						}
+						pg, presp := listVersions(s, bucket, p2, "", "key-marker", e.Key, "version-id-marker", e.VersionID)
+						if presp.Panic != nil {
+							return fail("panic", "marker-pair", fmt.Sprintf("prefix=%q key-marker=%q version-id-marker=%s panicked: %v", p2, e.Key, short(e.VersionID), presp.Panic))
+						}
+						if pg == nil {
+							return fail("marker-pair-error", "marker-pair,foreign-prefix", fmt.Sprintf("prefix=%q key-marker=%q version-id-marker=%s: %s", p2, e.Key, short(e.VersionID), presp))
+						}
+						var want []drv.VersionEntry
+						for _, fe := range full.Entries {
+							if fe.Key > e.Key {
+								want = append(want, fe)
+							}
+						}
+						if !sameEntries(pg.Entries, want) {
+							return fail("marker-pair-wrong-suffix", "marker-pair,foreign-prefix", fmt.Sprintf("prefix=%q key-marker=%q version-id-marker=%s returns %d entries; the prefixed listing has %d entries after that key", p2, e.Key, short(e.VersionID), len(pg.Entries), len(want)))
+						}
+						if r != nil {
+							r.Count("marker_pair_probes_foreign_prefix", 1)
+						}
+					}
+				}
 			}
 		}
 	}
@@ -397,7 +429,7 @@ func descAll(es []drv.VersionEntry) []string {
 
 func runC13(c *Ctx) {
 	r := c.R
-	r.SetRule("version histories as in C05 over keys {vk, dir/v2, dir/v3, w} or {a0, dir/v2, dir/v3, e/f, w} (single-version keys, latest = delete marker, never-versioned, suspended, re-enabled); after every step ListObjectVersions is compared with VersionModel (every remaining version once, grouped by ascending key, one IsLatest = what an unqualified GET serves, sizes/ETags, 'null' ids before versioning), and at the end of each history for 8 prefixes x {no delimiter,'/'} unpaginated, walked with NextKeyMarker/NextVersionIdMarker for every max-keys 1..n+1, and started at every (key, version) pair; memory backend; distinct = distinct histories")
+	r.SetRule("version histories as in C05 over keys {vk, dir/v2, dir/v3, w} or {a0, dir/v2, dir/v3, e/f, w} (single-version keys, latest = delete marker, never-versioned, suspended, re-enabled); after every step ListObjectVersions is compared with VersionModel (every remaining version once, grouped by ascending key, one IsLatest = what an unqualified GET serves, sizes/ETags, 'null' ids before versioning), and at the end of each history for 8 prefixes x {no delimiter,'/'} unpaginated, walked with NextKeyMarker/NextVersionIdMarker for every max-keys 1..n+1, and started at every (key, version) pair, also together with prefixes that the marker's key does not match; memory backend; distinct = distinct histories")
 	nh := r.Pick(2500, 50000)
 	exhLen := r.Pick(4, 5)
 	alpha := []vstep{{Op: "put", Key: "vk"}, {Op: "delete", Key: "vk"}, {Op: "delete-version", Key: "vk", Which: 0}, {Op: "delete-version", Key: "vk", Which: 9},
